@@ -18,7 +18,7 @@ func init() {
 		Assumptions: []string{"registration-time ASG tagging (addASGTags → CreateOrUpdateTags) is not one of the statement's write classes and is exempt by name"}})
 	register(&propSpec{ID: "C01", Run: checkC01,
 		Explanation: "Safety on all paths: instance termination and Node deletion are issued only by the delete step, which receives exactly the nodes the two reapers appended; the grace reaper's append is guarded by taint-time-readable ∧ ((age > soft ∧ empty) ∨ age > hard) with age built from that node's own stored taint time and strict comparisons, the force reaper's by emptiness; the lists the reapers range over are the classifier's tainted / force-tainted lists, whose appends require ¬cordoned ∧ taint present (outside dry mode); emptiness counts every non-daemonset pod of the group's pod list filed under the node's name; the reapers read no remembered state besides Opts and the NodeInfoMap rebuilt earlier in the same scan.",
-		RuleText:    "obligation = rule id + construct; R1/R2 deletion flow + element provenance, R3 grace guard implication, R4 force guard, R5 classification guards + scaleOpts binding, R6 emptiness shape, R7 restart invariance, R8 listed Node / Pod objects and lists are never written (the taint and its time are read from the cluster's state, not from a locally modified copy)",
+		RuleText:    "obligation = rule id + construct; R1/R2 deletion flow + element provenance, R3 grace guard implication, R4 force guard, R5 classification guards + scaleOpts binding, R6 emptiness shape, R7 restart invariance, R8 listed Node / Pod objects and lists are never written (the taint and its time are read from the cluster's state, not from a locally modified copy), R9 the listers hand out exactly what the group filter accepts, R10 the taint time is read back in the representation it was written in",
 		Assumptions: []string{"the informer cache is the cluster view of the scan", "strconv/time semantics; the value of the clock", "soft < hard is C16's concern"}})
 	register(&propSpec{ID: "C09", Run: checkC09,
 		Explanation: "Outside dry mode no action site can receive a node that was cordoned in this scan's snapshot: the classifier appends to untainted/tainted/force-tainted only under ¬Unschedulable; the node arguments of taint / untaint / delete have provenance in those lists only (interprocedural parameter binding up to the scan body); capacity, percent node count and delta node list are taken from the untainted list; the cordoned list flows only to len/logging/metrics.",
@@ -413,6 +413,10 @@ func checkC01(ck *Check) {
 			ck.filteredLister("C01.R9", fn)
 		}
 	}
+	// R10: "tainted for longer than the grace period" is measured from what the writer stamped: the
+	// reader parses exactly that representation (base-10 int64 seconds; decided as C15.R6) — a
+	// lossy reading (floats, other units) turns foreign or far-future values into "long ago"
+	ck.timeRoundTrip("C01.R10")
 }
 
 // classification checks the classifier's appends. want maps result index → role:
@@ -782,19 +786,14 @@ func (ck *Check) counterEdge(ctx *Ctx, l *Loop, ph *ssa.Phi, e ssa.Value, incs *
 				*incs++
 				// guard: relative to the body, exactly ¬PodIsDaemonSet(elem)
 				pc := ctx.PC(x)
-				var dsAtom *Term
-				for _, at := range pc.Atoms() {
-					if at.Kind == "call" && strings.HasSuffix(at.Name, "PodIsDaemonSet") && isElemOf(at.Args[0], func(t *Term) bool { return true }) {
-						dsAtom = at
-					}
-				}
-				if dsAtom == nil {
+				ds := ck.daemonSetOfElem(ctx, l)
+				if ds == nil {
 					*okp = false
 					*why = append(*why, "increment is not guarded by a PodIsDaemonSet test on the loop element")
 					return
 				}
 				body := And(ctx.BlockPC(l.Header), ctx.edgeCond(l.Header, l.Header.Succs[0]))
-				eq, _, _ := Equivalent(pc, And(body, Not(Atom(dsAtom))))
+				eq, _, _ := Equivalent(pc, And(body, Not(ds)))
 				if !eq {
 					*okp = false
 					*why = append(*why, "increment condition is not exactly ¬PodIsDaemonSet(pod): "+pc.String())
@@ -805,19 +804,14 @@ func (ck *Check) counterEdge(ctx *Ctx, l *Loop, ph *ssa.Phi, e ssa.Value, incs *
 			if k, ok := x.Y.(*ssa.Const); ok && x.Op.String() == "-" && k.Int64() == 1 && x.X == ssa.Value(ph) {
 				*incs++
 				pc := ctx.PC(x)
-				var dsAtom *Term
-				for _, at := range pc.Atoms() {
-					if at.Kind == "call" && strings.HasSuffix(at.Name, "PodIsDaemonSet") && isElemOf(at.Args[0], func(t *Term) bool { return true }) {
-						dsAtom = at
-					}
-				}
+				ds := ck.daemonSetOfElem(ctx, l)
 				body := And(ctx.BlockPC(l.Header), ctx.edgeCond(l.Header, l.Header.Succs[0]))
-				if dsAtom == nil {
+				if ds == nil {
 					*okp = false
 					*why = append(*why, "decrement is not guarded by a PodIsDaemonSet test on the loop element")
 					return
 				}
-				if eq, _, _ := Equivalent(pc, And(body, Atom(dsAtom))); !eq {
+				if eq, _, _ := Equivalent(pc, And(body, ds)); !eq {
 					*okp = false
 					*why = append(*why, "decrement condition is not exactly PodIsDaemonSet(pod): "+pc.String())
 				}
@@ -1605,4 +1599,20 @@ func getOrCreateHelper(h *ssa.Function) (int, int, bool) {
 		}
 	}
 	return mi, ki, n > 0 && mi >= 0
+}
+
+// daemonSetOfElem: the formula of PodIsDaemonSet(element of loop l) in ctx's vocabulary — the call
+// atom, or the predicate's own reading when the context inlines it.
+func (ck *Check) daemonSetOfElem(ctx *Ctx, l *Loop) *Formula {
+	kp := ck.P.SSAPkg[pkgK8s]
+	if kp == nil || l == nil || l.IdxPhi == nil || l.Over == nil {
+		return nil
+	}
+	isDS := kp.Func("PodIsDaemonSet")
+	if isDS == nil {
+		return nil
+	}
+	over := ctx.Term(l.Over)
+	el := &Term{Kind: "elem", Args: []*Term{over}, ID: "L" + ctx.instrID(l.IdxPhi), Typ: elemTypeOf(over.Typ)}
+	return boolResultFormula(ctx, isDS, []*Term{el}, 0)
 }
